@@ -486,6 +486,9 @@ fn canon_states_answer(e: &Explicit, status: u16, body: &[u8], with_path: bool, 
         let svg = row.get("svg").and_then(|x| x.as_str());
         if let Some(p) = row.get("properties") {
             props.push(p.clone());
+        } else if !e.props.is_empty() {
+            // every row carries the property triples of the model (what the UI shows next to each state)
+            em.v.push(("row-without-properties".into(), format!("a /.states row has no `properties` although the model has {} properties: {}", e.props.len(), row)));
         }
         let label = action.map(|a| e.labels.iter().position(|l| l == a).map(|l| l.to_string()).unwrap_or(format!("?{}", a.replace(' ', "_"))));
         match (label, state, fp) {
